@@ -131,6 +131,16 @@ m("nps-zero-division", "chartparse/chart.py", "if interval_duration_seconds <= 0
 m("nps-counts-lanes", "chartparse/chart.py",
   "num_events_to_consider = sum(1 for e in events if is_event_eligible(e))",
   "num_events_to_consider = sum(max(1, sum(e.note.value)) if len(events) > 6 else 1 for e in events if is_event_eligible(e))", ["C16"])
+# ---- C17
+m("shared-parsed-data-dict", "chartparse/track.py",
+  "    def __init__(self) -> None:\n        self._dict: collections.defaultdict[typ.Any, typ.Any] = collections.defaultdict(list)",
+  "    _dict: typ.Any = collections.defaultdict(list)\n\n    def __init__(self) -> None:\n        pass", ["C17"])
+m("ndt-cache-partial-key", "chartparse/tick.py",
+  "@functools.lru_cache\ndef note_duration_to_ticks(resolution: Ticks, note_duration: NoteDuration) -> Ticks:",
+  "_ndt_cache: dict = {}\n\n\ndef note_duration_to_ticks(resolution: Ticks, note_duration: NoteDuration) -> Ticks:\n    if note_duration not in _ndt_cache:\n        _ndt_cache[note_duration] = _ndt(resolution, note_duration)\n    return _ndt_cache[note_duration]\n\n\ndef _ndt(resolution: Ticks, note_duration: NoteDuration) -> Ticks:", ["C17"])
+m("sustain-scratch-buffer", "chartparse/instrument.py",
+  "    sustain_list = _SustainList([None] * 5)\n    for d in filter(lambda d: d.note_track_index.is_5_note(), datas):\n        sustain_list[d.note_track_index.value] = d.sustain\n",
+  "    sustain_list = _SCRATCH\n    for i in range(5):\n        sustain_list[i] = None\n    for d in filter(lambda d: d.note_track_index.is_5_note(), datas):\n        sustain_list[d.note_track_index.value] = d.sustain\n", ["C17"])
 # ---- C08
 m("bpm-sum-parts", "chartparse/sync.py",
   "bpm = int(data.raw_bpm) / 1000",
@@ -162,6 +172,12 @@ m("neutral-ignore-hints", "chartparse/sync.py",
   "        for index in range(start_iteration_index, index_of_last_event):",
   "        for index in range(0 if self[0].tick <= tick else start_iteration_index, index_of_last_event):", [],
   ["C01", "C11", "C12", "C15"])
+
+
+# the scratch-buffer mutant needs its module-level buffer
+for _x in M:
+    if _x["id"] == "sustain-scratch-buffer":
+        _x["extra"] = ("chartparse/instrument.py", "def complex_sustain_from_parsed_datas(", "_SCRATCH: list = [None] * 5\n\n\ndef complex_sustain_from_parsed_datas(")
 
 
 def run(cmd, env=None, cwd=None, timeout=3600):
@@ -200,6 +216,9 @@ def main():
                 bad += 1
                 continue
             f.write_text(src.replace(x["old"], x["new"]))
+            if "extra" in x:
+                f2 = dst / x["extra"][0]
+                f2.write_text(f2.read_text().replace(x["extra"][1], x["extra"][2], 1))
             suite = "-"
             if not a.no_suite:
                 p = run(["/venv/bin/python", "-m", "pytest", "-q", "-x", "-p", "no:cacheprovider",
